@@ -208,41 +208,74 @@ def run(cfg):
         if not fs:
             raise AnalysisError('anchor vanished: TransitionStorage::%s' % name)
         f = fs[0]
-        ob('R3', f.name, f.loc, *lookup_shape(f, key))
+        ob('R3', f.name, f.loc, *lookup_shape(f, key, fold_global=lib.global_value))
     return R
 
 
-def lookup_shape(f, key):
+CMP_CALLS = {'ace_time::extended::operator<': '<', 'ace_time::extended::operator>': '>', 'ace_time::extended::operator<=': '<=',
+             'ace_time::extended::operator>=': '>=', 'ace_time::extended::operator==': '=='}
+
+
+def lookup_shape(f, key, lang='c', fold_global=None):
+    """The look-up loop keeps the last element whose `key` field is <= the query: its body is summarised path by path
+    (E-GNF) and every feasible path must be either  start > query -> leave the loop, nothing recorded  or
+    start <= query -> record the element and go on.  How the test is spelled (operand order, negation, if/elif) is
+    immaterial."""
+    from .gnf import cmp_formula, f_not, formulas_equivalent, formula_atoms, formula_str
     loops = [s for s in walk_stmts(f.body) if s.k == 'loop']
     if len(loops) != 1:
         return False, 'expected one loop over the transitions'
     body = loops[0].a[4]
-    brk_seen = assign_after = False
-    for i, s in enumerate(body):
-        if s.k == 'if' and any(x.k == 'break' for x in s.a[1]):
-            c = s.a[0]
-            while c.k == 'cast':
-                c = c.a[2]
-            l = r = op = None
-            if c.k == 'bin' and c.a[0] in ('>', '<', '>=', '<='):
-                op, l, r = c.a[0], c.a[1], c.a[2]
-            elif c.k == 'call' and c.a[0].split('::')[-1] in ('operator>', 'operator<', 'operator>=', 'operator<=') and len(c.a[2]) == 2:
-                op, (l, r) = c.a[0].split('operator')[-1], c.a[2]
-            if op is None:
-                return False, 'the loop exit is not a comparison: %s' % show(c)
-            lt, rt = show(l), show(r)
-            if key in lt and op == '>':
-                brk_seen = True
-            elif key in rt and op == '<':
-                brk_seen = True
-            else:
-                return False, 'the loop stops on %s: expected "start > query" (so that the last start <= query is kept)' % show(c)[:100]
-        elif brk_seen and s.k == 'assign' and s.a[0].k == 'var':
-            assign_after = True
-    if not brk_seen:
-        return False, 'no "start > query => break" test in the loop'
-    if not assign_after:
-        return False, 'the candidate is not recorded after the test'
+    rets = [s for s in f.body if s.k == 'return' and s.a[0] is not None]
+    res = path_of(rets[-1].a[0]) if rets else None
+    if res is None:
+        return False, 'the function does not return a recorded element'
+    sx = SymExec(lang=lang, fold_global=fold_global)
+    sx.out_params = {res}
+    sx.cmp_calls = dict(CMP_CALLS)
+    summ = sx.run(f.name, body, {})
+    # the start term: a leaf `<element>.<key>` appearing in a guard; the query is the other term of that comparison
+    S = Q = None
+    others = set()
+    for g in summ.guards():
+        for at in formula_atoms(g):
+            if at[0] != 'atom':
+                continue
+            lin = _P(at[1]).linear_in()
+            if lin is None:
+                continue
+            syms = [a for a in lin[0] if a[0] == 'sym']
+            mine = [a for a in syms if a[1].endswith('.' + key)]
+            for a in syms:
+                if a[1].split('.')[-1].lower().startswith(('start', 'transition', 'until')) and not a[1].endswith('.' + key):
+                    others.add(a[1])
+            if len(mine) == 1 and len(lin[0]) == 2 and sorted(lin[0].values()) == [-1, 1] and at[3] == 0:
+                S = Poly.atom(mine[0])
+                Q = Poly.atom([a for a in lin[0] if a is not mine[0]][0])
+    if S is None:
+        if others:
+            return False, 'the loop compares the query with %s, not with the %s of the element' % (sorted(others)[0], key)
+        return False, 'no comparison of the element\'s %s with the query decides the loop' % key
+    elem = repr(S)[:-(len(key) + 1)]
+    GT = cmp_formula('>', S, Q)
+    seen_gt = seen_le = False
+    for g, kind, r, eff in summ.paths:
+        if formulas_equivalent(g, ('false',))[0]:
+            continue
+        kept = [v for t, v in eff if t == res]
+        if formulas_equivalent(g, GT)[0]:
+            seen_gt = True
+            if kind != 'break' or kept:
+                return False, 'when %s > %r the loop %s (expected: stop, keeping the previous element)' % (
+                    key, Q, 'records the element' if kept else 'goes on')
+        elif formulas_equivalent(g, f_not(GT))[0]:
+            seen_le = True
+            if kind != 'fallthrough' or len(kept) != 1 or repr(_P(kept[0])) != elem:
+                return False, 'when %s <= %r the loop does not record the element and go on' % (key, Q)
+        else:
+            return False, 'the loop decides on %s: expected "start > query => stop" / "start <= query => keep"' % formula_str(g)
+    if not (seen_gt and seen_le):
+        return False, 'the loop does not keep the last element whose %s <= query' % key
     return True, ''
 
 
@@ -290,5 +323,16 @@ SELFTEST = [
          find='        if (candidate->startEpochSeconds > epochSeconds) break;', replace='        if (candidate->startEpochSeconds >= epochSeconds) break;', rule='R3'),
     dict(id='lookup-records-before-test', file='src/ace_time/ExtendedZoneProcessor.h',
          find='        if (candidate->startDateTime > localDate) break;\n        match = candidate;', replace='        match = candidate;\n        if (candidate->startDateTime > localDate) break;', rule='R3'),
+    dict(id='lookup-operands-swapped-silent', file='src/ace_time/ExtendedZoneProcessor.h',
+         find='        if (candidate->startEpochSeconds > epochSeconds) break;', replace='        if (epochSeconds < candidate->startEpochSeconds) break;', expect='silent'),
+    dict(id='lookup-negated-test-silent', file='src/ace_time/ExtendedZoneProcessor.h',
+         find='        if (candidate->startEpochSeconds > epochSeconds) break;', replace='        if (!(candidate->startEpochSeconds <= epochSeconds)) break;', expect='silent'),
+    dict(id='lookup-keep-branch-first-silent', file='src/ace_time/ExtendedZoneProcessor.h',
+         find='        if (candidate->startEpochSeconds > epochSeconds) break;\n        match = candidate;',
+         replace='        if (candidate->startEpochSeconds <= epochSeconds) {\n          match = candidate;\n        } else {\n          break;\n        }', expect='silent'),
+    dict(id='lookup-by-transition-time', file='src/ace_time/ExtendedZoneProcessor.h',
+         find='        if (candidate->startDateTime > localDate) break;', replace='        if (candidate->transitionTime > localDate) break;', rule='R3'),
+    dict(id='extended-result-offset-in-local-silent', file='src/ace_time/ExtendedZoneProcessor.h',
+         find='      odt = OffsetDateTime::forEpochSeconds(epochSeconds, offset);', replace='      odt = OffsetDateTime::forEpochSeconds(epochSeconds, offset);\n      (void) ldt;', expect='silent'),
     dict(id='division-based-normalisation-silent', file='src/ace_time/ExtendedZoneProcessor.h', find='      while (dt->minutes < 0) {', replace='      while (0 > dt->minutes) {', expect='silent'),
 ]
